@@ -322,6 +322,31 @@ Theorem C14_updates_defined : forall bias_sd noise bias_walk sm_sd m xs st,
 Proof. exact updates_defined. Qed.
 Print Assumptions C14_updates_defined.
 
+(* histories in which some updates are REJECTED (wrong length: the full 9+n filter state, a truncated
+   slice, an empty vector), the caller catching the ValueError and continuing to use the model:
+   a rejected update raises exactly on a length mismatch and changes nothing ... *)
+Theorem C14_update_rejected : forall bias_sd noise bias_walk sm_sd m x st,
+  build bias_sd noise bias_walk sm_sd = Some m ->
+  (update m x st = None <-> List.length x <> n_states m) /\
+  (List.length x <> n_states m -> update_or_keep m st x = st).
+Proof. exact update_rejected. Qed.
+Print Assumptions C14_update_rejected.
+
+(* ... so the history equals the history of the accepted calls alone ... *)
+Theorem C14_history_accepted : forall bias_sd noise bias_walk sm_sd m xs st,
+  build bias_sd noise bias_walk sm_sd = Some m ->
+  updates m (accepted m xs) st = Some (run_history m xs st).
+Proof. exact run_history_accepted. Qed.
+Print Assumptions C14_history_accepted.
+
+(* ... and the estimates are the sum of the accepted vectors = ONE update with that sum *)
+Theorem C14_history_accumulates : forall bias_sd noise bias_walk sm_sd m xs,
+  build bias_sd noise bias_walk sm_sd = Some m ->
+  get_estimates m (run_history m xs reset) = Some (vsum (n_states m) (accepted m xs)) /\
+  update m (vsum (n_states m) (accepted m xs)) reset = Some (run_history m xs reset).
+Proof. exact history_accumulates. Qed.
+Print Assumptions C14_history_accumulates.
+
 (* ================================================================== *)
 (* 7. variances_agree *)
 
@@ -503,6 +528,22 @@ Example C14_ex_run :
       end
   end.
 Proof. vm_compute. repeat split; try reflexivity; discriminate. Qed.
+
+(* a history with rejected updates on the example model (5 states): too long, too short, empty *)
+Example C14_ex_history :
+  match build ex_bias_sd ex_noise ex_walk ex_sm_sd with
+  | None => False
+  | Some m =>
+      let x1 := map (dy 8) [1; 2; 3; 4; 5]%Z in
+      let x2 := map (dy 8) [-2; 0; 7; 1; 1]%Z in
+      let long := map (dy 8) [9; 9; 9; 9; 9; 9; 9; 9; 9; 9; 9; 9; 9; 9]%Z in
+      let h := [x1; long; map (dy 8) [5; 5]%Z; []; x2; long] in
+      list_eqb (list_eqb Qc_eqb) (accepted m h) [x1; x2] = true /\
+      update m long reset = None /\ update m [] reset = None /\
+      opt_eqb (list_eqb Qc_eqb) (get_estimates m (run_history m h reset))
+              (Some (map (dy 8) [-1; 2; 10; 5; 6]%Z)) = true
+  end.
+Proof. vm_compute. repeat split; reflexivity. Qed.
 
 (* variances on the example: dt = 1/16 with root 1/4; noisy axis z, walking axis z *)
 Example C14_ex_variances :
